@@ -36,6 +36,12 @@ BUILT["C25"] = ("E1", "fault_enumeration", "deterministic simulation: real mplex
 BUILT["C26"] = ("E1", "exploration", "deterministic simulation: flooding raw peer, schedule-paused local readers, both MaxBufferBehaviours; limit invariants after every step",
   "Invariant after every step: substreams handed out and not dropped <= max_substreams whatever the peer sends (incl. repeated Reset/Close); excess Opens answered by Reset; Block: at most max_buffer_len+1 frames taken for a paused reader and no frame lost or reordered after resume; ResetStream: overflowing stream reset and its reads end",
   "frames taken by the real side are measured as bytes consumed from the pipe with one frame delivered per quiescence point", "5/C26")
+BUILT["C16"] = ("E1", "fault_enumeration", "deterministic simulation with adversary fault enumeration: frame-aware man-in-the-middle (every byte flip, truncation, drop, duplicate, cross-session replacement) and a byzantine endpoint running the real handshake with a spliced identity; ground-truth identity oracle",
+  "Honest pairs over all 4 key types and schedules must report each other's true id; every single-byte flip of every handshake byte (exhaustive in-run), structural tampering of each of the 3 messages, prologue mismatches, and 7 identity splices x roles x key types: an honest side may return Ok(p) only for the identity that signed the static key of the session holder",
+  "crypto primitives trusted; byzantine endpoint built through the cfg(libp2p_verif) facade (field assignment only)", "5/C16")
+BUILT["C17"] = ("E1", "fault_enumeration", "deterministic simulation: honest sessions under chunking/readiness schedules with stream-equality oracle; man-in-the-middle flips / truncates the ciphertext at every offset (one fresh session per offset)",
+  "Write sizes around the frame limit x flush patterns x chunkings: bytes read == bytes written; for recorded ciphertext streams every byte position (length prefix, body, tag) is flipped once and every cut point tried: reader output must be a prefix ending before the damaged frame, then error",
+  "crypto primitives trusted; ed25519 identities (fixed layout) in the corruption scenarios", "5/C17")
 NOT_YET = {}
 
 def main():
